@@ -13,7 +13,7 @@ from harness import common, par
 NETWORK_SCHEMES = ('http', 'https', 'ftp', 'ws', 'wss', 'gopher')
 DEFAULT_PORTS = {'ftp': 21, 'gopher': 70, 'http': 80, 'https': 443, 'ws': 80, 'wss': 443}
 ENCODINGS = ['utf-8', 'latin-1', 'shift_jis', 'cp1252', 'utf-16', 'ascii', 'koi8-r', 'big5',
-             'iso-8859-15', 'cp437']
+             'iso-8859-15', 'cp437', 'iso2022_jp', 'iso2022_kr', 'iso2022_jp_2', 'hz', 'euc_jp', 'gb18030', 'utf-7', 'cp037']
 
 HOST_LABELS = ['example', 'EXAMPLE', 'ExAmPlE', 'a', 'www', 'xn--nxasmq6b', 'bücher',
                'BÜCHER', '例え', 'straße', 'ａｂｃ', 'café',
@@ -30,7 +30,7 @@ QUERY_BITS = ['a=1', 'b', 'c=', '=d', 'a=1&a=2', 'q=a b', 'q=a+b', 'q=%20', 'x=%
               'é=ü', 'x="y"', 'x=<>', 'x=`', '&', '&&', '=', 'a=b=c', 'a=%26', 'a=%3d', '?',
               '??', 'a/b', '/../', 'x=#', 'k=日', 'a=%', 'a=%z', '\x7f']
 USERINFOS = ['', '', '', 'user@', 'user:pw@', ':pw@', 'u%40x:p%3Aw@', 'USER@', 'a b@', 'u:@', '%aa:%bb@',
-             'ü:é@', 'a:b:c@', 'u%2F:p%2f@']
+             'ü:é@', 'a:b:c@', 'u%2F:p%2f@', 'us%0Aer:p%09w@', '%00:%1f@', 'u%0d%0a:x@', '%7f:%20@', 'u%1B:p@']
 
 
 def gen_ipv4_spelling(rng, addr=None):
